@@ -1,15 +1,18 @@
 package main
 
 import (
+	"context"
 	"crypto/sha256"
 	"encoding/json"
 	"flag"
 	"fmt"
+	"golang.org/x/tools/go/ssa"
 	"os"
 	"path/filepath"
 	"sort"
 	"strconv"
 	"strings"
+	"sync"
 	"time"
 )
 
@@ -92,6 +95,66 @@ func (g *Global) funcsForProp(p string) []string {
 	return out
 }
 
+// calleeClosure extends a list of contract keys by every function under a (non-trusted, non-inline) contract that the
+// listed functions can reach through static calls, closures and inlined helpers: the thorough tier re-verifies
+// everything a property's functions lean on, not only the functions tagged with the property.
+func (g *Global) calleeClosure(keys []string) []string {
+	have := map[string]bool{}
+	for _, k := range keys {
+		have[k] = true
+	}
+	seenFn := map[*ssa.Function]bool{}
+	var extra []string
+	var visit func(f *ssa.Function)
+	visit = func(f *ssa.Function) {
+		if f == nil || seenFn[f] {
+			return
+		}
+		seenFn[f] = true
+		for _, af := range f.AnonFuncs {
+			visit(af)
+		}
+		for _, b := range f.Blocks {
+			for _, in := range b.Instrs {
+				var cc *ssa.CallCommon
+				switch x := in.(type) {
+				case *ssa.Call:
+					cc = &x.Call
+				case *ssa.Defer:
+					cc = &x.Call
+				case *ssa.Go:
+					cc = &x.Call
+				}
+				if cc == nil {
+					continue
+				}
+				callee := cc.StaticCallee()
+				if callee == nil {
+					continue
+				}
+				if callee.Origin() != nil {
+					callee = callee.Origin()
+				}
+				k := g.funcKey(callee)
+				if fc := g.contracts.Funcs[k]; fc != nil && !fc.Trusted && !fc.Inline && g.funcs[k] != nil && len(callee.Blocks) > 0 {
+					if !have[k] {
+						have[k] = true
+						extra = append(extra, k)
+					}
+				}
+				if len(callee.Blocks) > 0 && g.funcs[g.funcKey(callee)] != nil {
+					visit(callee)
+				}
+			}
+		}
+	}
+	for _, k := range keys {
+		visit(g.funcs[k])
+	}
+	sort.Strings(extra)
+	return append(append([]string(nil), keys...), extra...)
+}
+
 type replayFile struct {
 	Property   string   `json:"property"`
 	Obligation string   `json:"obligation"`
@@ -145,9 +208,11 @@ func cmdCheck(args []string) {
 	t0 := time.Now()
 	g := mustLoad()
 	keys := g.funcsForProp(*prop)
+	tagged := len(keys)
 	timeout := 60
 	if *tier == "thorough" {
 		timeout = 200
+		keys = g.calleeClosure(keys)
 	}
 	type fres struct {
 		key string
@@ -183,7 +248,14 @@ func cmdCheck(args []string) {
 			canaries = append(canaries, job{sc, cn})
 		}
 	}
-	dischargeAll(jobs, timeout, 12, *tier == "thorough")
+	dischargeAll(jobs, timeout, 12, false)
+	// thorough: every obligation a solver discharged is handed to the other solvers as well (short limit). Agreement is
+	// counted; an obligation one solver proves and another refutes with a model is reported, not believed.
+	crossConfirmed, crossUndecided, crossSkipped := 0, 0, 0
+	var crossDisagree []*Obligation
+	if *tier == "thorough" {
+		crossConfirmed, crossUndecided, crossSkipped, crossDisagree = crossCheck(jobs, 10, 12, 300*time.Second)
+	}
 	ctime := 2
 	if *tier == "thorough" {
 		ctime = 5
@@ -286,6 +358,9 @@ func cmdCheck(args []string) {
 	for _, ob := range failed {
 		report(ob.ID, ob.Kind, ob.Func, ob.Pos, ob.Desc, ob.Status, ob.Solver, ob.Output, ob.Model, scOf[ob], ob)
 	}
+	for _, ob := range crossDisagree {
+		report(ob.ID, ob.Kind, ob.Func, ob.Pos, ob.Desc, "solver-disagreement", ob.Solver, ob.Output, ob.Model, scOf[ob], ob)
+	}
 	canaryRefuted, canaryVacuous := 0, 0
 	for _, c := range canaries {
 		if c.ob.Status == "unsat" {
@@ -333,6 +408,12 @@ func cmdCheck(args []string) {
 		"distinct_nontrivial":      discharged - byBackend["trivial"],
 		"rule":                     "one evaluation = one verification condition generated from /repo's current SSA and discharged by an SMT solver; non-trivial = needed a solver call (not syntactically true)",
 		"not_mechanised":           info.NotMech,
+	}
+	if *tier == "thorough" {
+		cov["functions_tagged_with_property"] = tagged
+		cov["functions_added_by_callee_closure"] = len(keys) - tagged
+		cov["cross_check"] = map[string]any{"confirmed_by_a_second_solver": crossConfirmed, "second_solver_undecided_in_10s": crossUndecided, "not_cross_checked_budget_exhausted": crossSkipped, "disagreements": len(crossDisagree),
+			"rule": "obligations discharged by one solver are re-run on the other installed solvers (10 s each) within a budget of 5 minutes per property; a model from another solver is reported as a violation"}
 	}
 	ev := map[string]any{
 		"property_id": *prop,
@@ -384,4 +465,76 @@ func dischargeCanaries(cs []job, timeoutS int) {
 	solvers = solvers[:1]
 	dischargeAll(cs, timeoutS, 16, false)
 	solvers = saved
+}
+
+// crossCheck re-runs every solver-discharged obligation on the solvers that did not decide it.
+func crossCheck(jobs []job, timeoutS int, workers int, budget time.Duration) (confirmed, undecided, skipped int, disagree []*Obligation) {
+	deadline := time.Now().Add(budget)
+	dir, _ := os.MkdirTemp("", "govc-xc-")
+	defer os.RemoveAll(dir)
+	type res struct {
+		ob     *Obligation
+		status string // confirmed | undecided | sat
+		note   string
+		model  string
+	}
+	ch := make(chan job)
+	out := make(chan res, len(jobs))
+	var wg sync.WaitGroup
+	for i := 0; i < workers; i++ {
+		wg.Add(1)
+		go func() {
+			defer wg.Done()
+			for j := range ch {
+				winner := strings.TrimSuffix(strings.TrimSuffix(j.ob.Solver, "(qf)"), "(lean)")
+				r := res{ob: j.ob, status: "undecided"}
+				for _, sp := range solvers {
+					if sp.name == winner {
+						continue
+					}
+					st, o, _ := runSolver(context.Background(), sp, j.sc.render(j.ob, sp.pre, false), timeoutS, dir)
+					if st == "unsat" {
+						r.status = "confirmed"
+						r.note = sp.name
+						break
+					}
+					if st == "sat" {
+						r.status = "sat"
+						r.note = sp.name + ": sat although " + j.ob.Solver + " answered unsat"
+						r.model = o
+						break
+					}
+				}
+				out <- r
+			}
+		}()
+	}
+	n := 0
+	for _, j := range jobs {
+		if j.ob.Status != "unsat" || j.ob.Solver == "trivial" || j.ob.Solver == "case-split" || j.ob.Kind == "canary" {
+			continue
+		}
+		if time.Now().After(deadline) {
+			skipped++
+			continue
+		}
+		n++
+		ch <- j
+	}
+	close(ch)
+	wg.Wait()
+	close(out)
+	for r := range out {
+		switch r.status {
+		case "confirmed":
+			confirmed++
+		case "sat":
+			r.ob.Output += "; cross-check: " + r.note
+			r.ob.Model = r.model
+			disagree = append(disagree, r.ob)
+		default:
+			undecided++
+		}
+	}
+	return
 }
